@@ -9,9 +9,11 @@ What is modelled (MediaMTX's own logic):
 * `Decode`: the regular expression the code builds is, token by token, `literal | (.*?) | ([0-9]{n}) |
   (Z|\+[0-9]{4}|-[0-9]{4})`.  `allM toks s` enumerates *every* way `s` can start with a text matching the
   token sequence, in the priority order of a backtracking search (lazy `(.*?)`: shortest first), so
-    - the code's `FindStringSubmatch` (leftmost-first, **no anchors**) is `search` = first element of
-      `allM` at the first offset that has one;
-    - the anchored variant `^…$` (the proposed fix) is the first element whose rest is empty;
+    - the code (since fix 2f5d4aa: regex anchored `^…$`) takes the first element whose rest is empty and
+      rejects it if a repeated placeholder captured different texts: `decode = decodeV true true`;
+    - the pre-fix behaviour (`FindStringSubmatch` leftmost-first, **no anchors**) is `search` = first
+      element of `allM` at the first offset that has one; it is kept (`decodeV false false`) only for
+      the regression theorems that document finding F-C26;
   capture → placeholder mapping with "last occurrence wins", defaults, the `unixSec > 0` switch.
 
 Oracles (not modelled): the calendar (`time.Date`, `Time.Year()…`, zone database).  The model works on
@@ -218,10 +220,10 @@ def search (toks : List Tok) : Nat → Bytes → Option Match
     | some cr => some ⟨off, cr.1, cr.2⟩
     | none => search toks (off + 1) s
 
-/-- what `Decode` matches today. -/
+/-- what `Decode` matched before fix 2f5d4aa (unanchored). -/
 def matchCode (toks : List Tok) (s : Bytes) : Option Match := search toks 0 s
 
-/-- the same regex anchored with `^…$`. -/
+/-- the regex anchored with `^…$` (the code since 2f5d4aa). -/
 def matchAnchored (toks : List Tok) (s : Bytes) : Option Match :=
   ((allM toks s).find? fun cr => cr.2.isEmpty).map fun cr => ⟨0, cr.1, cr.2⟩
 
@@ -309,13 +311,14 @@ def fieldsOK (toks : List Tok) (F : Fields) : Bool :=
 /-- `conf.IsValidPathName` (see C06) restricted to what matters here: no newline. -/
 def pathOK (p : Bytes) : Bool := p.all (· != 10)
 
-/-- decidable class of finding F-C26: the code's match does not cover the whole candidate. -/
+/-- (pre-fix regression) decidable class of finding F-C26: the unanchored match does not cover the whole
+candidate. -/
 def unanchoredExtra (toks : List Tok) (s : Bytes) : Bool :=
   match matchCode toks s with
   | some m => !m.whole
   | none => false
 
-/-- decidable class: a placeholder occurs several times and the code's match captured different texts. -/
+/-- (pre-fix regression) a placeholder occurs several times and the unanchored match captured different texts. -/
 def repeatedMismatch (toks : List Tok) (s : Bytes) : Bool :=
   match matchCode toks s with
   | some m => !consistent m.caps
@@ -323,13 +326,16 @@ def repeatedMismatch (toks : List Tok) (s : Bytes) : Bool :=
 
 /-! ### variants of `Decode`, and notions used by the theorems -/
 
-/-- `Decode`'s matching step.  `anch = false, coh = false` is the code as written; `anch = true` is the
-regex anchored with `^…$`; `coh = true` additionally rejects a match in which a repeated placeholder
-captured different texts. -/
+/-- `Decode`'s matching step, parametrised by variant.  `anch = true` is the regex anchored with `^…$`;
+`coh = true` additionally rejects a match in which a repeated placeholder captured different texts.
+`anch = coh = true` is the code (`decode` below); `false false` is the code before fix 2f5d4aa. -/
 def decodeV (anch coh : Bool) (toks : List Tok) (s : Bytes) : Option Match :=
   match (if anch then matchAnchored toks s else matchCode toks s) with
   | some m => if coh && !consistent m.caps then none else some m
   | none => none
+
+/-- `Path.Decode`'s matching step as the code performs it (anchored, repeated placeholders agree). -/
+def decode (toks : List Tok) (s : Bytes) : Option Match := decodeV true true toks s
 
 /-- a name written from an assignment of texts to placeholders. -/
 def encodeA (toks : List Tok) (A : Kind → Bytes) : Bytes :=
